@@ -105,6 +105,31 @@ class Obligation(object):
         self.model = None
 
 
+_QCACHE = {}
+
+
+def _has_quantifier(f):
+    key = f.get_id()
+    r = _QCACHE.get(key)
+    if r is not None:
+        return r
+    seen = set()
+    stack = [f]
+    res = False
+    while stack:
+        e = stack.pop()
+        i = e.get_id()
+        if i in seen:
+            continue
+        seen.add(i)
+        if z3.is_quantifier(e):
+            res = True
+            break
+        stack.extend(e.children())
+    _QCACHE[key] = res
+    return res
+
+
 def _same(a, b):
     if a is b:
         return True
@@ -655,9 +680,14 @@ class Engine(object):
                 # (contract clauses: no auxiliary names, their definitions could be lost inside quantifiers)
                 tails.append(z3.And(tl) if len(tl) > 1 else tl[0])
             else:
-                # name the path condition once; Ifs and the disjunction use the name
+                # name the path condition once; Ifs and the disjunction use the name.
+                # quantified facts stay outside the definition (only implied by the name)
                 nm = self.u.fresh_bool("path")
-                prefix.append(nm == z3.And(tl))
+                qf = [f for f in tl if not _has_quantifier(f)]
+                qs = [f for f in tl if _has_quantifier(f)]
+                prefix.append(nm == z3.And(qf) if qf else nm == z3.BoolVal(True))
+                for f in qs:
+                    prefix.append(z3.Implies(nm, f))
                 tails.append(nm)
         out = State({}, {}, {}, None, prefix + [z3.Or(tails)])
         out_tails = tails
